@@ -60,6 +60,7 @@ package main
 //@ func cmd:convert-to-raw
 //@   property C11 C15 C19
 //@   assert@before:ReadSystemFromFile arg0 == cli.flagStr(context, "input")
+//@   assert@before:Create called("ReadSystemFromFile")
 //@   assert@before:WriteRawTo origin(ps, "ReadSystemFromFile.0") && file.path == cli.flagStr(context, "output")
 //@   assert@return result == nil ==> called("WriteRawTo") && err == nil && origin(err, "WriteRawTo")
 
